@@ -11,8 +11,8 @@ package main
 // No function of the analysed library is ever executed.
 
 import (
-	"go/constant"
 	"fmt"
+	"go/constant"
 	"go/token"
 	"go/types"
 	"sort"
@@ -49,24 +49,25 @@ var evNames = map[EvKind]string{EvCall: "call", EvEnter: "enter", EvExit: "exit"
 	EvIterEnter: "iter-enter", EvIterExit: "iter-exit", EvLoopEnter: "loop-enter", EvLoopBack: "loop-back", EvLoopExit: "loop-exit", EvDefer: "defer", EvLookup: "lookup", EvMakeSlice: "makeslice"}
 
 type Event struct {
-	Kind   EvKind
-	Instr  ssa.Instruction
-	Fn     *ssa.Function
-	Ctx    string
-	Callee string
-	CalleeFn *ssa.Function
-	Args   []Val
-	Res    []Val
-	Addr   Val
-	Val    Val
-	X      Val // indexed / sliced / dereferenced / asserted operand
-	I      Val
+	Kind        EvKind
+	Instr       ssa.Instruction
+	Fn          *ssa.Function
+	Ctx         string
+	Callee      string
+	CalleeFn    *ssa.Function
+	Args        []Val
+	Res         []Val
+	Addr        Val
+	Val         Val
+	X           Val // indexed / sliced / dereferenced / asserted operand
+	I           Val
 	Lo, Hi, Max Val
-	NFacts int
-	Iters  []string // enclosing generic iterations (loops, handler invocations)
-	Seq    int
-	Deferred bool
-	Phis   []PhiInfo // loop-enter: header phis of the generic iteration
+	NFacts      int
+	Iters       []string // enclosing generic iterations (loops, handler invocations)
+	Seq         int
+	Deferred    bool
+	Phis        []PhiInfo // loop-enter: header phis of the generic iteration
+	TreeEpoch   int       // number of tree-changing operations on the path before this event
 }
 
 type PhiInfo struct {
@@ -106,7 +107,7 @@ func (f Fact) String() string {
 }
 
 type loopCtx struct {
-	info *loopInfo
+	info  *loopInfo
 	mode  int // 0 generic, 1 exitZ, 2 exitG, 3 concrete (constant trip count: executed as written)
 	id    string
 	trips int
@@ -115,16 +116,16 @@ type loopCtx struct {
 }
 
 type Frame struct {
-	fn     *ssa.Function
-	ctx    string
-	env    map[ssa.Value]Val
-	block  *ssa.BasicBlock
-	prev   *ssa.BasicBlock
-	pc     int
-	retTo  ssa.Instruction // call instruction in the caller frame
-	defers []*Event
-	loops  []*loopCtx
-	handler bool // frame is a generic handler invocation; its return value becomes the iterate call's result
+	fn          *ssa.Function
+	ctx         string
+	env         map[ssa.Value]Val
+	block       *ssa.BasicBlock
+	prev        *ssa.BasicBlock
+	pc          int
+	retTo       ssa.Instruction // call instruction in the caller frame
+	defers      []*Event
+	loops       []*loopCtx
+	handler     bool // frame is a generic handler invocation; its return value becomes the iterate call's result
 	handlerIter string
 }
 
@@ -134,15 +135,15 @@ type cell struct {
 }
 
 type State struct {
-	frames []*Frame
-	heap   map[string]cell
-	dirty  map[string]int
-	epoch  int
-	facts  []Fact
-	events []*Event
-	nonce  int
-	iters  []string
-	visits map[string]int
+	frames    []*Frame
+	heap      map[string]cell
+	dirty     map[string]int
+	epoch     int
+	facts     []Fact
+	events    []*Event
+	nonce     int
+	iters     []string
+	visits    map[string]int
 	treeEpoch int
 }
 
@@ -226,6 +227,7 @@ func (st *State) addEvent(e *Event) *Event {
 	e.NFacts = len(st.facts)
 	e.Iters = append([]string(nil), st.iters...)
 	e.Seq = len(st.events)
+	e.TreeEpoch = st.treeEpoch
 	st.events = append(st.events, e)
 	return e
 }
